@@ -9,7 +9,7 @@ import z3
 from . import ops
 from .loader import ClassInfo
 from .ops import F, T, is_none, mk_opt, strip_opt, truth
-from .values import (BoundExt, CannotMerge, ClassRef, ExtRef, FuncRef, OpaqueFn, Opt, Ref, Sym, Unsupported, enum_member, enum_sort,
+from .values import (BoundExt, CannotMerge, ClassRef, ExtRef, FuncRef, MaybeUnbound, OpaqueFn, Opt, Ref, Sym, Unsupported, enum_member, enum_sort,
                      fresh, is_concrete, is_sym, simp, zint, zstr)
 
 
@@ -88,8 +88,14 @@ class ExprMixin:
                 for k in set(f1) | set(f2):
                     if k in f1 and k in f2:
                         nf[k] = ops.merge_values(c, f1[k], f2[k], s1, s2, out, base["heap"])
+                    elif k.startswith("__"):
+                        nf[k] = f1[k] if k in f1 else f2[k]  # engine bookkeeping, not a program variable
                     else:
-                        nf[k] = f1[k] if k in f1 else f2[k]  # bound in one arm only: dead afterwards (no use-before-def assumed)
+                        # a variable bound in one arm only: reading it later is an UnboundLocalError on the other arm (ev_Name splits the cases)
+                        v_, bound = (f1[k], c) if k in f1 else (f2[k], z3.Not(c))
+                        if isinstance(v_, MaybeUnbound):
+                            v_, bound = v_.val, z3.And(bound, v_.cond)
+                        nf[k] = MaybeUnbound(simp(bound), v_)
                 out.frames[i] = nf
             for oid in set(s1.heap) | set(s2.heap):
                 if oid in s1.heap and oid in s2.heap:
@@ -122,9 +128,25 @@ class ExprMixin:
         return [("val", e.value, st)]
 
     def ev_Name(self, e, st):
-        return [("val", self.lookup(e.id, st), st)]
+        v = self.lookup(e.id, st, allow_maybe_unbound=True)
+        if isinstance(v, MaybeUnbound):
+            out = []
+            for bound, s in self.branch(st, v.cond):
+                if bound:
+                    s.env[e.id] = v.val
+                    out.append(("val", v.val, s))
+                else:
+                    out.extend(self.raise_ext(s, "UnboundLocalError", e.id))
+            return out
+        return [("val", v, st)]
 
-    def lookup(self, name, st):
+    def lookup(self, name, st, allow_maybe_unbound=False):
+        v = self._lookup(name, st)
+        if isinstance(v, MaybeUnbound) and not allow_maybe_unbound:
+            raise Unsupported(f"variable {name} is bound on only one side of an earlier `if` and is read where the two cases cannot be split")
+        return v
+
+    def _lookup(self, name, st):
         for fr in (st.env,):
             if name in fr:
                 return fr[name]
